@@ -7,6 +7,7 @@ import (
 	"io"
 	"io/fs"
 	"os"
+	"path/filepath"
 	"syscall"
 	"time"
 )
@@ -21,6 +22,7 @@ const PipeCapacity = 65536
 type SimPipe struct {
 	sim  *Sim
 	Name string
+	base string // used in the event log (the directory may be a random temp dir)
 
 	buf             []byte
 	writers         int
@@ -42,7 +44,7 @@ type SimPipe struct {
 
 // AddPipe registers a simulated FIFO under path.
 func (s *Sim) AddPipe(path string) *SimPipe {
-	p := &SimPipe{sim: s, Name: path}
+	p := &SimPipe{sim: s, Name: path, base: filepath.Base(path)}
 	s.lock()
 	s.pipes[path] = p
 	s.unlock()
@@ -113,7 +115,7 @@ func OpenFile(name string, flag int, perm os.FileMode) (*File, error) {
 		return nil, &fs.PathError{Op: "open", Path: name, Err: p.openErr}
 	}
 	p.readerOpen = true
-	s.Logf("pipe.opened %s", name)
+	s.Logf("pipe.opened %s", p.base)
 	return &File{p: p}, nil
 }
 
@@ -142,7 +144,7 @@ func (f *File) Read(b []byte) (int, error) {
 		if p.readErr != nil {
 			err := p.readErr
 			s.Count("pipe.eio")
-			s.Logf("pipe.read %s err=%v", p.Name, err)
+			s.Logf("pipe.read %s err=%v", p.base, err)
 			return 0, &fs.PathError{Op: "read", Path: p.Name, Err: err}
 		}
 		if len(p.buf) > 0 {
@@ -163,12 +165,12 @@ func (f *File) Read(b []byte) (int, error) {
 			p.buf = p.buf[n:]
 			p.BytesRead += n
 			p.wakeWriter()
-			s.Logf("pipe.read %s n=%d", p.Name, n)
+			s.Logf("pipe.read %s n=%d", p.base, n)
 			return n, nil
 		}
 		if p.everOpened && p.writers == 0 {
 			s.Count("pipe.eof")
-			s.Logf("pipe.read %s EOF", p.Name)
+			s.Logf("pipe.read %s EOF", p.base)
 			return 0, io.EOF
 		}
 		sig := make(chan struct{})
@@ -196,7 +198,7 @@ func (f *File) Close() error {
 		return &fs.PathError{Op: "close", Path: p.Name, Err: os.ErrClosed}
 	}
 	p.closed = true
-	p.sim.Logf("pipe.closed %s", p.Name)
+	p.sim.Logf("pipe.closed %s", p.base)
 	p.wakeReader()
 	p.wakeWriter()
 	return nil
@@ -212,7 +214,7 @@ type PipeWriter struct {
 func (p *SimPipe) OpenWriter() *PipeWriter {
 	p.writers++
 	p.everOpened = true
-	p.sim.Logf("pipe.writer_open %s", p.Name)
+	p.sim.Logf("pipe.writer_open %s", p.base)
 	p.wakeReader()
 	return &PipeWriter{p: p}
 }
@@ -248,7 +250,7 @@ func (w *PipeWriter) Write(b []byte) (int, error) {
 		total += n
 		p.wakeReader()
 	}
-	s.Logf("pipe.write %s n=%d", p.Name, total)
+	s.Logf("pipe.write %s n=%d", p.base, total)
 	return total, nil
 }
 
@@ -259,7 +261,7 @@ func (w *PipeWriter) Close() {
 	}
 	w.closed = true
 	w.p.writers--
-	w.p.sim.Logf("pipe.writer_close %s", w.p.Name)
+	w.p.sim.Logf("pipe.writer_close %s", w.p.base)
 	w.p.wakeReader()
 }
 
